@@ -231,6 +231,36 @@ def hidden_state(obj, known=()):
     return out
 
 
+def deep_hidden_state(obj, known=(), depth=3):
+    """hidden_state, followed into attribute objects that have attributes of their own (an options object, a cached helper ...):
+    nested [name, type, state] lists with memory addresses removed. Arrays of numbers are summarised by dtype, shape and bytes."""
+    import re
+
+    import numpy as np
+
+    def walk(v, d):
+        if isinstance(v, (bool, int, float, str, bytes, type(None))):
+            return repr(v)
+        if isinstance(v, np.ndarray):
+            return ["ndarray", str(v.dtype), list(v.shape), v.tobytes().hex()[:64]]
+        if isinstance(v, (list, tuple)):
+            return [type(v).__name__] + [walk(x, d - 1) for x in v][:50] if d > 0 else type(v).__name__
+        if isinstance(v, dict):
+            return ["dict"] + [[repr(k)[:60], walk(x, d - 1)] for k, x in list(v.items())[:50]] if d > 0 else "dict"
+        inner = getattr(v, "__dict__", None)
+        if isinstance(inner, dict) and d > 0:
+            import types
+
+            return [type(v).__name__] + [[k, walk(x, d - 1)] for k, x in sorted(inner.items())
+                                         if not isinstance(x, (types.FunctionType, types.MethodType, types.BuiltinFunctionType))]
+        try:
+            return re.sub(r"0x[0-9a-fA-F]+", "0x", repr(v))[:200]
+        except Exception:
+            return "<unprintable>"
+
+    return [[k, walk(v, depth)] for k, v in sorted(getattr(obj, "__dict__", {}).items()) if k not in known]
+
+
 def replay_case(case):
     """Re-run one recorded history, checking every step; returns list of (sig, detail)."""
     spec = get_spec(case["spec_mod"], case["spec"], case.get("params"))
